@@ -326,7 +326,7 @@ def dispatch(it):
 def main():
   tier = sys.argv[1] if len(sys.argv) > 1 else 'quick'
   chk = Check('C05', tier)
-  wq = [1, 2, 8, 33, 64]
+  wq = [1, 2, 8, 33, 65]
   wt = [1, 2, 3, 8, 9, 33, 64, 65, 255]
   widths = wq if tier == 'quick' else wt
   items = []
@@ -334,7 +334,7 @@ def main():
     for shape in ('idx', 'lohi', 'lo_', '_hi', '__', 'step', 'nostep_none'):
       items.append(dict(kind='index', mode='get', shape=shape, n=n))
       vks = ['int'] + sorted({1, 2, max(1, n // 2), n, n + 1} if n <= 64 else {1, n})
-      if tier == 'quick' and n > 33: vks = ['int', n]
+      if tier == 'quick' and n > 33: vks = ['int', n, n + 1]
       for vk in vks:
         items.append(dict(kind='index', mode='set', shape=shape, n=n, v=str(vk)))
   if tier == 'thorough':
@@ -342,11 +342,11 @@ def main():
       items.append(dict(kind='index', mode='get', shape=shape, n=1023))
     items.append(dict(kind='index', mode='set', shape='idx', n=1023, v='int'))
     items.append(dict(kind='index', mode='set', shape='idx', n=1023, v='1'))
-  hw = [1, 2, 8, 33, 64] if tier == 'quick' else [1, 2, 3, 8, 33, 64, 65, 128, 512, 1023]
+  hw = [1, 2, 8, 33, 64, 65, 128] if tier == 'quick' else [1, 2, 3, 8, 33, 64, 65, 128, 512, 1023]
   for n in hw:
     for what in ('reduce_and', 'reduce_or'):
       items.append(dict(kind='helper', what=what, ws=[n]))
-    if n <= (64 if tier == 'quick' else 128):
+    if n <= 128:
       items.append(dict(kind='helper', what='reduce_xor', ws=[n]))
     for new in sorted({1, max(1, n - 1), n, n + 1, 2 * n, 1023}):
       if new > 1023: continue
@@ -358,6 +358,7 @@ def main():
              [255, 255, 255, 255], [255, 256, 256, 256]):
     items.append(dict(kind='helper', what='concat', ws=ws))
   items.append(dict(kind='clog2', bits=64))
+  items.append(dict(kind='clog2', bits=5))      # small explicit domain: an implementation that renders N (bin/str) is enumerated, not lost
   if tier == 'thorough': items.append(dict(kind='clog2', bits=1024))
   items.sort(key=lambda it: -(it.get('n') or max(it.get('ws', [0])) or it.get('bits', 0)))
   for it, r in pmap(dispatch, items, item_timeout=400 if tier == 'quick' else 1500):
